@@ -62,6 +62,17 @@ func init() {
 	}})
 }
 
+// c03RedirectTargets: where a redirect action points (act.Code is the index) - also targets that do not parse as
+// URLs, the way request-derived text arrives (a stray %, a bad escape). A redirect is sent; it is never a panic.
+var c03RedirectTargets = []string{"/elsewhere", "/sale/100%/today", "/%zz", "/a b/c", "/elsewhere"}
+
+func c03Target(a act) string {
+	if a.Op != "redirect" || a.Code < 0 || a.Code >= len(c03RedirectTargets) {
+		return "/elsewhere"
+	}
+	return c03RedirectTargets[a.Code]
+}
+
 func genHspec(r *rand.Rand) hspec {
 	h := hspec{}
 	n := r.Intn(6)
@@ -92,7 +103,7 @@ func genHspec(r *rand.Rand) hspec {
 				h.Acts = append(h.Acts, act{Op: "cancel"})
 			}
 		case x < 38:
-			h.Acts = append(h.Acts, act{Op: []string{"rectx", "rectx", "rectxi", "detach", "redirect"}[r.Intn(5)]})
+			h.Acts = append(h.Acts, act{Op: []string{"rectx", "rectx", "rectxi", "detach", "redirect"}[r.Intn(5)], Code: r.Intn(len(c03RedirectTargets))})
 		default:
 			h.Acts = append(h.Acts, act{Op: "panic"})
 		}
@@ -337,7 +348,7 @@ func (s *chainSim) exec(i int, h *hspec) {
 				if (s.get || s.head) && !s.ct {
 					s.ct = true
 					if s.get {
-						s.write("<a href=\"/elsewhere\">Found</a>.\n\n")
+						s.write("<a href=\"" + c03Target(a) + "\">Found</a>.\n\n")
 					}
 				}
 			case "panic":
@@ -488,7 +499,7 @@ func (x *chainExec) mk(i int, h *hspec) flamego.Handler {
 				x.tr = append(x.tr, fmt.Sprintf("detach%d.%d", i, k))
 			case "redirect":
 				x.tr = append(x.tr, fmt.Sprintf("redirect%d.%d", i, k))
-				c.Redirect("/elsewhere")
+				c.Redirect(c03Target(a))
 			case "expire":
 				// a timeout middleware whose time is up: the request now carries a context whose deadline has passed
 				// (it is done with DeadlineExceeded, nobody called a cancel function)
